@@ -84,11 +84,23 @@ CHECKS: Dict[str, Any] = {
         ["corner clusters in the workload are unambiguous: coincident within 2e-8, distinct >= 1e-5 (never within a decade of TOL=1e-7)",
          "the reference key (position cluster, slave patches touching that corner of that operation) is the intended rule",
          "the blockMeshDict reader is correct"], ["norders", "k"]),
+    "C12": EngineCheck("C12", "lifecycle_check", "fault_enumeration",
+        "one evaluation = one simulated history over {add, delete, assemble, move vertices, backport, clear, modify_patch, set_default_patch, "
+        "merge_patches, write} with injected faults as first-class steps (SimCrash at the k-th internal step of assemble followed by clear; "
+        "open/write/close errors of write followed by a retry; a write that fails in grading followed by chop+clear+write). quick: fault points "
+        "sampled; thorough: for every sampled history, every internal step of its first assembly and open / each of the 9 write calls / close of "
+        "its first write are enumerated. distinct_nontrivial counts distinct (history shape, event-log digest) among executions with at least "
+        "one checked write that follows a clear, backport, delete, crash or I/O fault.",
+        ["the oracle is differential: the file written by a fresh Mesh rebuilt (by the same library) from the harness's own program log",
+         "writes between a vertex move and backport/clear, and after add/delete/merge/chop on an assembled mesh without clear, are not generated "
+         "(the statement does not say what they should produce)",
+         "the blockMeshDict reader is correct; comparison is semantic (positions to 7 decimals, numbers to 9 significant digits, patches without faces ignored)"],
+        ["faults"]),
 }
 
 
-ENGINES = ["propagation", "vertices"]
-SELFTEST_SEEDS = {"propagation": 40, "vertices": 100}
+ENGINES = ["propagation", "vertices", "lifecycle"]
+SELFTEST_SEEDS = {"propagation": 40, "vertices": 100, "lifecycle": 100}
 
 
 def engine_module(name: str):
